@@ -503,7 +503,7 @@ def concurrency(ctx):
         deep = "-present," in label      # insertion during another thread's iteration needs three preemptions (B before its
         #                                  update, A into the walk, B's update, A's next step)
         n, bad = XC.check_scenario(scn, lines, 3 if deep else ctx.n(2, 3), rng=ctx.rng, n_random=ctx.n(10, 200),
-                                   budget=ctx.n(1500 if deep else 120, 6000 if deep else 3000))
+                                   budget=ctx.n(1500 if deep else 120, 3000))
         total += n
         ctx.case(("concurrent", json.dumps(scn, sort_keys=True)), nontrivial=True,
                  sample=dict(kind="concurrent", label=label, prefix=scn["prefix"], threads=scn["threads"], schedules=n) if label.startswith("expired-failed") else None)
